@@ -348,6 +348,27 @@ def _load_plugins() -> None:
             GEN_OWNER[fname] = name[len("translate_"):]
 
 
+def ensure_gen_present() -> None:
+    """Every generator's output must exist before the dependency closure of a property is computed
+    (coqdep cannot see an import of a file that is not there yet): a missing coq/gen/<f> is seeded
+    from the last accepted translation coq/ref/<f>, or generated on the spot."""
+    import shutil
+    _load_plugins()
+    os.makedirs(os.path.join(COQ, "gen"), exist_ok=True)
+    for fname, g in GENERATORS.items():
+        p = os.path.join(COQ, "gen", fname)
+        if os.path.exists(p):
+            continue
+        r = os.path.join(COQ, "ref", fname)
+        if os.path.exists(r):
+            shutil.copy(r, p)
+        else:
+            try:
+                write_if_changed(p, g()[0])
+            except Broken:
+                pass
+
+
 def regenerate_all(only: Optional[Sequence[str]] = None) -> List[Dict[str, str]]:
     """Rewrite coq/gen/*.v (only when content changed).  Raises Broken on failure."""
     _load_plugins()
